@@ -2794,6 +2794,21 @@ func (p *Posix) UploadPartCopy(ctx context.Context, upi *s3.UploadPartCopyInput)
 		}
 	}
 
+	// the range is evaluated against, and the part sized for, the file
+	// that is copied: another upload may replace the source at any time
+	// after the stat above
+	srcf, err := os.Open(objPath)
+	if errors.Is(err, fs.ErrNotExist) {
+		return s3response.CopyPartResult{}, s3err.GetAPIError(s3err.ErrNoSuchKey)
+	}
+	if err != nil {
+		return s3response.CopyPartResult{}, fmt.Errorf("open object: %w", err)
+	}
+	defer srcf.Close()
+	if sfi, err := srcf.Stat(); err == nil {
+		fi = sfi
+	}
+
 	startOffset, length, err := backend.ParseCopySourceRange(fi.Size(), *upi.CopySourceRange)
 	if err != nil {
 		return s3response.CopyPartResult{}, err
@@ -2808,15 +2823,6 @@ func (p *Posix) UploadPartCopy(ctx context.Context, upi *s3.UploadPartCopyInput)
 		return s3response.CopyPartResult{}, fmt.Errorf("open temp file: %w", err)
 	}
 	defer f.cleanup()
-
-	srcf, err := os.Open(objPath)
-	if errors.Is(err, fs.ErrNotExist) {
-		return s3response.CopyPartResult{}, s3err.GetAPIError(s3err.ErrNoSuchKey)
-	}
-	if err != nil {
-		return s3response.CopyPartResult{}, fmt.Errorf("open object: %w", err)
-	}
-	defer srcf.Close()
 
 	rdr := io.NewSectionReader(srcf, startOffset, length)
 	hash := md5.New()
